@@ -14,7 +14,7 @@ def plan(tier, seed):
 
 
 def required(tier, classes, records):
-    pats = list(TOPO_REQUIRED) + [("circular core", r"^circ\|"), ("strongly unequal legs", r"longleg")]
+    pats = list(TOPO_REQUIRED) + [("circular core", r"^circ\|"), ("strongly unequal legs", r"longleg"), ("double null with four different leg sizes", r"(cdn|ldn|udn).*4 different legs")]
     if tier == "thorough":
         pats.append(("isolated X-point (TORPEX)", r"^torpex"))
     return need_classes(classes, pats)
